@@ -570,10 +570,11 @@ def check(ctx):
 
     rep.extra["primitives"] = {P.label: {"defined": f"{P.module.relpath}:{P.where}", "bind_sites": len(P.sites), "readers": len(_dedupe(P.readers))}
                                for nm in STATEMENT for P in by_name[nm]}
-    from .c42_extra import memos, slices
+    from .c42_extra import ctrlorder, memos, slices
 
     slices(ctx, rep)
     memos(ctx, rep)
+    ctrlorder(ctx, rep)
     return rep
 
 
